@@ -140,7 +140,9 @@ def text_layout(ctx, r, F):
             if pt:
                 e = pt[0]
                 lits = find_all(e, lambda x: x[0] == "bytes")
-                wins = [layout.window(x, P(1)) for x in find_all(e, lambda x: x[0] == "call" and x[1].endswith("::index"))]
+                # any spelling of the first two input bytes: bytes[0..2], bytes[..2], bytes.split_at(2).0
+                cands = find_all(e, lambda x: (x[0] == "call" and x[1].endswith("::index")) or (x[0] == "field" and x[1][0] == "call" and x[1][1].endswith("::split_at")))
+                wins = [layout.window(x, P(1)) for x in cands]
                 okp = [l[1] for l in lits] == ["5431"] and (C(0), C(2)) in wins
             if not okp:
                 bad.append("prefix comparison is not bytes[0..2] vs b\"T1\"")
